@@ -3,6 +3,7 @@ CONSTANTS
   SeqVals = {0, 1, 2, 15, 16, 17, 18, 32, 33, 34, 32767, 32768, 65518, 65519, 65520, 65534, 65535}
   MaxList = 3
   RangeLists = 2
+  MaxPairs = 36
   TableIds = {0, 65535}
 INVARIANTS LoopInvariant CoverExact BuilderRefines CursorBound RangeIsPrefix RangeComplete Equivariant
 CHECK_DEADLOCK FALSE
